@@ -11,7 +11,9 @@ RULE = ("dist: L0 on the real collectors (CalcProviderDistributionAmount, Collec
         "dominant / dust / random unit vectors, CollectPoolRewardTuples with multipliers 0..10, epoch bucket shares) — payout vectors "
         "compared with the model and judged by Spec.C18 (fairOne, fairPool, fairSplit); amm/ammdir: L1 histories with LPPD, depth "
         "rewards (both modes) and epoch payouts, state compared with the model, recipients of every hook judged by "
-        "Spec.C18.recipientsOK; non-trivial = a distinct collector call that returned amounts")
+        "Spec.C18.recipientsOK; ammdir D23 pays the buckets through the REAL x/epochs BeginBlocker (rewards epoch hour / day / week, block times "
+        "stepping over hour, day and week boundaries where several epochs end in one block): whether the rewards epoch is due is read from the "
+        "stored epoch infos, and the same epoch predicates are judged; non-trivial = a distinct collector call that returned amounts")
 TRUSTED_BASE = [
     "Lean 4.33.0 kernel; axioms propext, Classical.choice, Quot.sound (audited per theorem on every run)",
     "hand-written Lean model of the clp collectors and hooks, tied by differential execution (L0 and L1)",
